@@ -266,4 +266,59 @@ theorem go_le : ∀ e, Tot1 e := by
         simp only [h3]
         exact ⟨_, _, _, rfl, (le_checkPat _ _ _ _).trans (l1.trans ((le_popScope _ _).trans ((le_push _ _).trans l3)))⟩
 
+
+theorem goL_le : ∀ es, TotL es
+  | [] => by
+    refine ⟨?_, ?_, ?_⟩
+    · intro G Γ s; rw [goL]; exact ⟨_, _, _, rfl, Le.refl _⟩
+    · intro xs G Γ s; simp only [goZip]; exact ⟨_, _, _, rfl, Le.refl _⟩
+    · intro exp G Γ s; rw [goBlock]; exact ⟨_, _, _, rfl, Le.refl _⟩
+  | e :: es => by
+    have ihe := go_le e
+    have ihes := goL_le es
+    refine ⟨?_, ?_, ?_⟩
+    · intro G Γ s
+      rw [goL]
+      obtain ⟨t, Γ1, s1, h1, l1⟩ := ihe none G Γ s
+      obtain ⟨ts, Γ2, s2, h2, l2⟩ := ihes.1 G Γ1 s1
+      simp only [h1, h2]
+      exact ⟨_, _, _, rfl, l1.trans l2⟩
+    · intro xs G Γ s
+      cases xs with
+      | nil => simp only [goZip]; exact ⟨_, _, _, rfl, Le.refl _⟩
+      | cons x xs =>
+        simp only [goZip]
+        obtain ⟨t, Γ1, s1, h1, l1⟩ := ihe (some x) G Γ s
+        obtain ⟨ts, Γ2, s2, h2, l2⟩ := ihes.2.1 xs G Γ1 s1
+        simp only [h1, h2]
+        exact ⟨_, _, _, rfl, l1.trans l2⟩
+    · intro exp G Γ s
+      rw [goBlock]
+      obtain ⟨t, Γ1, s1, h1, l1⟩ := ihe (if es.isEmpty then exp else none) G Γ s
+      obtain ⟨ts, Γ2, s2, h2, l2⟩ := ihes.2.2 exp G Γ1 s1
+      simp only [h1, h2]
+      exact ⟨_, _, _, rfl, l1.trans l2⟩
+
+theorem goArms_le : ∀ arms, TotA arms
+  | [] => by intro sty exp armTy G Γ s; rw [goArms]; exact ⟨_, _, _, rfl, Le.refl _⟩
+  | .mk p body :: arms => by
+    have iha' := go_le body
+    have ihas := goArms_le arms
+    intro sty exp armTy G Γ s
+    cases exp with
+    | some x =>
+      rw [goArms]
+      obtain ⟨tb, Γ1, s1, h1, l1⟩ := iha' (some x) G (checkPat p sty (pushScope Γ) s).2.1 (checkPat p sty (pushScope Γ) s).2.2
+      simp only [h1]
+      obtain ⟨tas, Γ2, s3, h3, l3⟩ := ihas sty (some x) armTy G (popScope Γ1 s1).1 (popScope Γ1 s1).2
+      simp only [h3]
+      exact ⟨_, _, _, rfl, (le_checkPat _ _ _ _).trans (l1.trans ((le_popScope _ _).trans l3))⟩
+    | none =>
+      rw [goArms]
+      obtain ⟨tb, Γ1, s1, h1, l1⟩ := iha' none G (checkPat p sty (pushScope Γ) s).2.1 (checkPat p sty (pushScope Γ) s).2.2
+      simp only [h1]
+      obtain ⟨tas, Γ2, s3, h3, l3⟩ := ihas sty none armTy G (popScope Γ1 s1).1 ((popScope Γ1 s1).2.push (.eq tb.ty armTy))
+      simp only [h3]
+      exact ⟨_, _, _, rfl, (le_checkPat _ _ _ _).trans (l1.trans ((le_popScope _ _).trans ((le_push _ _).trans l3)))⟩
+
 end Goml.Infer
